@@ -498,6 +498,28 @@ def oracle(fn, arg, out):
             if j < 0:
                 return 'the rendered text of entry %r does not appear (in order) in the document' % (S(k),)
             pos = j + len(r[1])
+        if b == 0:
+            # the entries part of an HTML document is well-formed (labels here are plain)
+            i = doc.find('<dl>\n'); j = doc.rfind('</dl></body></html>')
+            if i < 0 or j < i:
+                return 'the HTML document lacks its <dl> ... </dl></body></html> frame'
+            if all(not any(c in S(l) for c in '<>&') for (_, l, _) in entries):
+                p = _Ev(); p.feed(doc[i + 5:j]); p.close()
+                stack = []
+                for e in p.ev:
+                    if e[0] == 'start':
+                        stack.append(e[1])
+                    elif e[0] == 'end':
+                        if not stack or stack[-1] != e[1]:
+                            return 'the entries part of the HTML document is not well-formed (unexpected </%s>)' % e[1]
+                        stack.pop()
+                if stack:
+                    return 'the entries part of the HTML document is not well-formed (unclosed <%s>)' % stack[-1]
+        if b == 1 and brace_balanced(S(preamble)) and all(brace_balanced(S(k)) and brace_balanced(S(l)) and all(brace_balanced(S(x)) for x in tree_strings(t, [])) for (k, l, t) in entries):
+            if not brace_balanced(doc):
+                return 'the LaTeX document has unbalanced braces although every key, label and string is balanced'
+            if doc.count('\\bibitem[') < len(entries) or '\\begin{thebibliography}' not in doc or '\\end{thebibliography}' not in doc:
+                return 'the LaTeX document lacks \\begin/\\end{thebibliography} or a \\bibitem per entry'
         return None
     return None
 
@@ -735,7 +757,6 @@ TRUSTED_BASE = ['modelled (not verified) code: pybtex/backends/{__init__,html,la
                 'pybtex.textutils.width (label widths are inputs of the document model)']
 ASSUMPTIONS = ['enc_keeps_braces / table shape hypotheses: discharged per run for the measured tables (generated obligations)',
                'the rich-text tree given to the model is the real object tree dumped after construction (the smart constructor itself is C08)']
-PARTIAL = []
 
 # ----------------------------------------------------------------------------------------
 # per-run table obligations (DESIGN.md 2.3): the tables are regenerated from the code / measured
@@ -790,7 +811,7 @@ def generated_obligations(ck):
     obs.append(run('latexcodec_keeps_braces', 'latexcodec\'s translation of every ASCII character (+ samples), measured, keeps the brace skeleton', enc))
     return obs
 
-PARTIAL = ['latex_depth_roundtrip is proved for the identity codec; with latexcodec the depth claim is oracled on values the codec leaves unchanged and compared model-vs-code elsewhere',
+PARTIAL = ['latex_depth_roundtrip is proved for the identity codec (and under sampled codec hypotheses, next item); elsewhere the depth claim is oracled on values the codec leaves unchanged and compared model-vs-code',
            'HTML / Markdown / LaTeX theorems assume ordinary URLs and tag names (no angle bracket; no ")" in Markdown link URLs; balanced braces in LaTeX): the code inserts both unescaped',
            'whole documents: the HTML <head> block (DOCTYPE, void meta elements) is fixed text outside the well-formedness theorem; labels/keys are inserted unescaped (hypotheses plain_label / balanced)',
            'latex_depth_roundtrip_codec: its four codec hypotheses are sampled against latexcodec (codec_hypotheses_sweep), not proved of it, and hold only on an alphabet without space , - \' ` ~',
